@@ -52,6 +52,22 @@ Theorem C18_union_types_unified : forall P ls rs out,
 Proof. exact union_types_unified. Qed.
 Print Assumptions C18_union_types_unified.
 
+(* 3b. accepted => after the casts the binder requests (a branch that needs a cast for any column is projected to
+   the output types, SetOpPlanner::wrap_cast) BOTH branches have exactly the announced FULL data types - ids and
+   parameters (decimal precision/scale, timestamp unit, list element type; [dtype] = id + metadata) - and every
+   cast inserted has an implicit-cast score.  Tied to the source: the column comparison is `left == right` on
+   DataType values and the length test is present (scanned on every run). *)
+Theorem C18_union_branches_one_type :
+  TablesTyping.setop_full_type_equality = Some 1 /\ TablesTyping.setop_arity_check = Some 1 /\
+  forall P ls rs out,
+  unify_cols P ls rs = Some out ->
+  branch_after ls out (needs_cast SLeft out) = map fst out /\
+  branch_after rs out (needs_cast SRight out) = map fst out /\
+  (forall f t, In (f, t) (casts_inserted ls out (needs_cast SLeft out)) -> exists s, score P (d_id f) (d_id t) = Some s) /\
+  (forall f t, In (f, t) (casts_inserted rs out (needs_cast SRight out)) -> exists s, score P (d_id f) (d_id t) = Some s).
+Proof. split; [reflexivity|]. split; [reflexivity|]. exact union_branches_one_type. Qed.
+Print Assumptions C18_union_branches_one_type.
+
 (* 4. the length test is what makes 3 hold: the zip loop alone (the binder before the repair f82a4c29b) accepts
    one Int32 column UNION two Int32 columns; the current rule rejects it *)
 Theorem C18_union_zip_alone_accepts_unequal_arity :
